@@ -4,6 +4,7 @@ import (
 	"fmt"
 	"sort"
 	"strconv"
+	"strings"
 
 	"github.com/google/osv-scalibr/guidedremediation/strategy"
 	"github.com/google/osv-scalibr/guidedremediation/upgrade"
@@ -29,6 +30,15 @@ type GenConfig struct {
 	UnknownReqs bool
 	// Aliases (npm): a few direct dependencies are declared through an "npm:" alias.
 	Aliases bool
+	// AliasDuplicates (npm): this percentage of the manifests requires one registry package
+	// twice in one section, under different keys: plainly and through an "npm:" alias
+	// ("lib": "1.0.0" next to "lib-legacy": "npm:lib@0.9.0"), or through two aliases. Off (0)
+	// in DefaultConfig.
+	AliasDuplicates int
+	// FocusPackage: when set, the first two records of GenVulns prefer this package (so that
+	// distinct vulnerabilities hang on the distinct requirements of a duplicated package).
+	// GenScenario sets it to the duplicated package of the manifest.
+	FocusPackage string
 }
 
 // DefaultConfig is the configuration C11/C12 use.
@@ -290,7 +300,8 @@ func GenUniverse(t *rapid.T, cfg GenConfig) Universe {
 // GenManifest draws a manifest with 1..4 direct requirements on packages of the universe
 // (requirements biased towards old versions so that there is something to upgrade), npm
 // groups / Maven scopes, a few npm aliases, and for Maven optional dependencyManagement
-// entries. A package is declared at most once per section.
+// entries. A package is declared at most once per section, except for the aliased duplicates of
+// GenConfig.AliasDuplicates.
 func GenManifest(t *rapid.T, ix *Index, cfg GenConfig) Manifest {
 	cfg = cfg.norm()
 	m := Manifest{System: cfg.System, Name: "verif-root", Version: "1.0.0"}
@@ -349,6 +360,33 @@ func GenManifest(t *rapid.T, ix *Index, cfg GenConfig) Manifest {
 			}
 		}
 		m.Deps = append(m.Deps, r)
+	}
+	if cfg.System == NPM && cfg.AliasDuplicates > 0 && pct(t, "aliasdup?") < cfg.AliasDuplicates {
+		// A second requirement on the package of one of the direct dependencies, in the same
+		// section, under an alias key; its requirement is drawn independently (old line next
+		// to new line). The alias sorts after ("<name>-legacy") or before ("aa-<name>") the
+		// package's own name. Sometimes the first requirement becomes an alias as well.
+		bi := IntIn(t, 0, len(m.Deps)-1, "aliasdup.base")
+		base := m.Deps[bi]
+		p, _ := ix.Package(base.Name)
+		vs, latest := vers(p)
+		k := IntIn(t, 0, len(p.Versions)-1, "aliasdup.v")
+		short := base.Name
+		if i := strings.LastIndex(short, "/"); i >= 0 {
+			short = short[i+1:]
+		}
+		dup := Requirement{Name: base.Name, Req: genReq(t, cfg, vs, k, latest, "aliasdup"), Group: base.Group, Alias: short + "-legacy"}
+		if rapid.Bool().Draw(t, "aliasdup.sortsfirst") {
+			dup.Alias = "aa-" + short
+		}
+		if base.Alias == "" && pct(t, "aliasdup.both") < 35 {
+			m.Deps[bi].Alias = short + "-current"
+		}
+		pos := bi + 1
+		if rapid.Bool().Draw(t, "aliasdup.before") {
+			pos = bi
+		}
+		m.Deps = append(m.Deps[:pos:pos], append([]Requirement{dup}, m.Deps[pos:]...)...)
 	}
 	if cfg.System == Maven && pct(t, "mgmt?") < 40 {
 		nm := IntIn(t, 1, 2, "nmgmt")
@@ -472,6 +510,11 @@ func GenVulns(t *rapid.T, ix *Index, cfg GenConfig) []OSV {
 		for a := 0; a < na; a++ {
 			albl := fmt.Sprintf("%s.a%d", lbl, a)
 			p := &ix.Packages[IntIn(t, 0, len(ix.Packages)-1, albl+".pkg")]
+			if cfg.FocusPackage != "" && i < 2 && a == 0 {
+				if fp, ok := ix.Package(cfg.FocusPackage); ok && pct(t, albl+".focus") < 60 {
+					p = fp
+				}
+			}
 			af := OSVAffected{Package: OSVPackage{Ecosystem: eco, Name: p.Name}}
 			if a == 1 && pct(t, albl+".noise") < 25 {
 				af.Package.Ecosystem = "PyPI" // same name in another ecosystem: must never match
@@ -623,6 +666,9 @@ func GenScenario(t *rapid.T, cfg GenConfig) Scenario {
 	m := GenManifest(t, ix, cfg)
 	if cfg.System == Maven {
 		m.InertProfile = Pct(t, "inert_profile") < 30
+	}
+	if name := m.DuplicatedPackage(); name != "" {
+		cfg.FocusPackage = name
 	}
 	return Scenario{Universe: u, Manifest: m, Vulns: GenVulns(t, ix, cfg), Levels: GenLevels(t, ix)}
 }
